@@ -348,3 +348,7 @@ CHECKS = [
     Check("invalid_edges", judge_invalid, strategy=strat_invalid, quick=800, thorough=20000,
           rule="non-increasing / too short / empty edges must raise LenaValueError, valid ones must be accepted."),
 ]
+
+
+from .. import covfuzz  # noqa
+CHECKS.append(covfuzz.check(CHECKS, "harness.props.c06", "fill_sequences", quick=3000, thorough=100000))
